@@ -4,18 +4,20 @@ CLAIMS["C01"] = dict(
     text="Proved in Lean for every number of states/events/transitions, every field and every interpretation of the transcendental symbols: "
          "the assembly folds of get_ode_eqn / get_StateChangeMatrix / get_EventRateVector / get_pureOdeVector / get_ReactantMatrix equal "
          "sum_events rate*net + explicit terms, V entries = net magnitudes, ODE = V*a + pure, reactant entries, derived-parameter substitution. "
-         "The hand-written model is tied to the code on every run by differential correspondence (symbolic, exact-point 50-digit; numeric evaluators; both back-ends; malformed definitions).",
+         "The hand-written model is tied to the code on every run by differential correspondence (symbolic, exact-point 50-digit; numeric evaluators; both back-ends; malformed definitions), "
+         "including what the purity of the model implies for histories: results kept across later calls, parameter re-assignment and restoration, container/dtype forms of the arguments, "
+         "a second live instance with permuted declarations built in stages, a deep copy.",
     note="Trusted: Lean kernel + Mathlib; the harness (generator, printer, interpreter); sympy parser/subs and lambdify/autowrap are validated per case, not proved. "
-         "Identity of expressions is decided at 3 random rational points per case.",
+         "Identity of expressions is decided at 4 random rational points per case.",
     technique="Lean 4 induction over event/transition lists (fold = sum) + model/code correspondence")
 CLAIMS["C03"] = dict(
     text="Proved in Lean (Mathlib HasDerivAt): the symbolic differentiator used by the model is the true derivative of every expression of the rate grammar "
          "away from singularities (hasDerivAt_diff, defined_diff), and the Jacobian / gradient / second-derivative / gradient-Jacobian / parameter-parameter (grad_grad) objects hold exactly those "
          "derivatives at the documented positions (row e*nS+i, k*nS+i, i*nP+j layouts) for every number of states and parameters; transitionJacobian/Mean/Var equal Cao et al. (7),(8a),(8b). "
          "sympy's diff and the compiled evaluators are tied to the verified differentiator on every generated model of every run (symbolic exact-point comparison + numeric), "
-         "with a Lean-independent 50-digit finite-difference oracle for the failing-input search.",
+         "with a Lean-independent 50-digit finite-difference oracle for the failing-input search; results are kept across later calls, parameter re-assignments, a permuted second instance and a deep copy and judged again.",
     note="Trusted: Lean kernel + Mathlib; harness generator/printer/interpreter. Modelled rather than verified: sympy.diff, Matrix.jacobian, lambdify/autowrap (translation-validated per model). "
-         "Expression identity decided at 2 random rational points per case.",
+         "Expression identity decided at 3 random rational points per case.",
     technique="Lean 4 structural induction on expressions (HasDerivAt) + index-arithmetic lemmas + model/code correspondence")
 CLAIMS["C10"] = dict(
     text="Proved in Lean: for every transition-only model (any number of states/events, symbolic magnitudes, any field/interpretation) the assembled right-hand side sums to zero identically and every "
@@ -49,8 +51,10 @@ CLAIMS["C12"] = dict(
     text="Proved in Lean: every API route (Event with a rate, Event whose single or member transition carries the rate, bare Transition given to add_event, legacy transition=/birth_death= lists, "
          "births named by origin or destination) appends an event with the same core, and assembly reads only cores, so the assembled equations are syntactically identical (assemble_congr); "
          "order of events / explicit terms and the explicit-ODE route leave the value of the ODE unchanged in every field and interpretation; comma/space string declarations split into exactly the "
-         "listed names for any separators. Tie and oracle: each random process set is entered twice through independent route assignments, orders and declaration styles on the real code; the two real "
-         "models must agree (get_ode_eqn exact-point, ode/jacobian numerics, multiset of (rate, column) pairs), and each is compared with the driver's assemble.",
+         "listed names for any separators. building with the incremental operations ops1++ops2 is building with ops1 and folding ops2 over the result (staged_build). Tie and oracle: each random process set is entered three times "
+         "through independent route assignments, orders, declaration styles and container forms (list, tuple, one bare object, *_list assignment) on the real code, the three instances built in an "
+         "interleaved schedule with evaluations in between (every intermediate model compared with the spec read so far); the real models must agree with each other and with the process set's own ODE "
+         "(get_ode_eqn exact-point, ode/jacobian numerics, multiset of (rate, column) pairs), and each is compared with the driver's assemble.",
     note="Trusted: Lean kernel + Mathlib; harness generator/printer/interpreter. sympy parsing is validated per case. Expression identity decided at 2 random rational points.",
     technique="Lean 4 case analysis of constructors/routes + congruence of assembly + permutation invariance; model/code correspondence")
 CLAIMS["C14"] = dict(
